@@ -460,3 +460,7 @@ Definition model_projection (e : ep) (o : opts) (a : rsarg Z) : projection :=
   let g := 77%Z in
   let (out, g') := call Z Z nat toy_draw toy_seed toy_env toy_interp (skeleton e o) a g in
   project a out g g'.
+
+(* a configuration used by the non-vacuity examples of Props/C16.v: randomized-SVD init with mask, rank above every mode size *)
+Definition ex_opts : opts :=
+  {| o_shape := [4; 3; 5]; o_rank := 6; o_init := ISvd; o_svd := SRandomized; o_mask := true; o_nrep := 2; o_iters := 2; o_aux := 3 |}.
